@@ -26,6 +26,7 @@ fn fmt_dry(x: &Option<Option<(bool, usize)>>) -> String {
 }
 
 pub fn run(key: &str, a: &[String], out: &mut Out) {
+    out.begin(key, a);
     match key {
         "C05.lim" => {
             let (l, r) = (Bdd::from_string(&a[2]), Bdd::from_string(&a[3]));
